@@ -1,6 +1,9 @@
 package worker
 
 import (
+	"os"
+	"sync"
+	"sync/atomic"
 	"time"
 
 	"verif/eng"
@@ -34,8 +37,32 @@ func Shrink(spec *props.Spec, j *Job) *ShrinkOut {
 	if maxSec == 0 {
 		maxSec = 60
 	}
+	// A candidate tape may send the library into an endless loop: give up
+	// shrinking then and hand back the best tape found so far.
+	var execStart atomic.Int64
+	var mu sync.Mutex
+	var bestSoFar *eng.Result
+	var bestTape []uint32
+	go func() {
+		for {
+			time.Sleep(time.Second)
+			if st := execStart.Load(); st != 0 && time.Now().UnixNano()-st > 45*int64(time.Second) {
+				mu.Lock()
+				if bestSoFar != nil {
+					bestSoFar.Tape = bestTape
+					out.Repro, out.Result, out.ToLen = true, bestSoFar, len(bestTape)
+				}
+				out.GaveUp = "a candidate tape made no progress for 45s; minimisation stopped"
+				out.WallS = time.Since(start).Seconds()
+				writeJSON(j.Out, out)
+				os.Exit(3)
+			}
+		}
+	}()
 	try := func(t []uint32) *eng.Result {
 		out.Execs++
+		execStart.Store(time.Now().UnixNano())
+		defer execStart.Store(0)
 		res := Exec(spec, sim.ReplayTapeCap(t, tapeCap(spec)), j.Tier, true)
 		if res.Viol != nil && res.Viol.Class() == j.Class {
 			return res
@@ -63,6 +90,12 @@ func Shrink(spec *props.Spec, j *Job) *ShrinkOut {
 	budget := func() bool {
 		return out.Execs < maxExec && time.Since(start) < time.Duration(maxSec)*time.Second
 	}
+	record := func() {
+		mu.Lock()
+		bestSoFar, bestTape = bestRes, append([]uint32(nil), best...)
+		mu.Unlock()
+	}
+	record()
 	accept := func(c []uint32) bool {
 		if res := try(c); res != nil {
 			best = c
@@ -70,6 +103,7 @@ func Shrink(spec *props.Spec, j *Job) *ShrinkOut {
 				best = append([]uint32(nil), res.Tape...)
 			}
 			bestRes = res
+			record()
 			return true
 		}
 		return false
